@@ -111,8 +111,22 @@ namespace hv
         int fired{0};
         void maybe_throw(long long id, int phase);
     };
-    extern FaultPlan g_faults;
     const char *phase_name(int p);
+
+    // ---------------------------------------------------------------- per-executor scenario context
+    // Scenario tables are reached through a thread-local pointer so that several independent executors can run
+    // concurrently (C07) on simulated threads, each with its own scripts, fault plan and log tag.
+    struct TimerOp { char kind; long long n; std::string tag; };   // '+' delta, '@' abs offset, 'u' untag, 'U' un_schedule(), 'p' pop, 'r' reset
+    struct Ctx
+    {
+        int exec{-1};                                                                   // log tag ("x"), -1 = none
+        std::map<long long, std::map<long long, long long>> src_script;                 // id -> offset -> value
+        std::map<long long, std::map<long long, std::vector<TimerOp>>> timer_script;    // id -> k (0=start, n=n-th eval) -> ops
+        FaultPlan faults;
+    };
+    extern thread_local Ctx *g_ctx;
+    inline Ctx &ctx() { return *g_ctx; }
+    extern Ctx g_default_ctx;
 
     // ---------------------------------------------------------------- observer
     // Graph instances are numbered in order of on_before_start_graph (addresses never reach the log).
@@ -153,6 +167,7 @@ namespace hv
 
     // ---------------------------------------------------------------- modes
     int run_dataflow(const Scenario &sc);
+    int run_concurrent(const Scenario &sc);
     int run_collections(const Scenario &sc);
     int run_higher_order(const Scenario &sc);
     int run_threads(const Scenario &sc);
